@@ -119,6 +119,11 @@ def bad_values(T, rnd):
             lo, hi = gen.int_bounds(item)
             out.append(("typed, item out of range", T([hi + 1])))
             out.append(("plain list, item out of range", [lo - 1]))
+            wider = zt.int32s if item._size < 4 else None
+            if wider is not None:
+                out.append(("typed list, item of a wider integer type out of range", T([wider(hi + 1)])))
+                if lo == 0:
+                    out.append(("typed list, negative item of a signed integer type", T([zt.int8s(-1)])))
     elif issubclass(T, zt.List):
         item = T._item_type
         if issubclass(item, zt.FixedIntType) and not issubclass(item, enum.Enum):
